@@ -296,6 +296,16 @@ func (w *lWorld) write(u int, text *string) {
 	}
 }
 
+// writeKeepTime rewrites a file and gives it back the modification time it had (cp -p, rsync -t,
+// a restore from backup, file systems with coarse clocks): the new content is what counts.
+func (w *lWorld) writeKeepTime(u int, text *string) {
+	st, err := os.Stat(w.abs(u))
+	w.write(u, text)
+	if err == nil && text != nil {
+		_ = os.Chtimes(w.abs(u), st.ModTime(), st.ModTime())
+	}
+}
+
 // ---------------------------------------------------------------- implementation side
 
 func (w *lWorld) id(p string) any {
@@ -451,7 +461,11 @@ func (w *lWorld) runOps(texts []*string, ops []map[string]any) (impl, fresh []an
 			fresh = append(fresh, w.resJ(r, e))
 		case "edit":
 			u := num(op["p"])
-			w.write(u, subst(op["file"]))
+			if keep, _ := op["keep"].(bool); keep {
+				w.writeKeepTime(u, subst(op["file"]))
+			} else {
+				w.write(u, subst(op["file"]))
+			}
 			l.InvalidateFile(w.abs(u))
 			impl, fresh = append(impl, nil), append(fresh, nil)
 		case "silent":
@@ -869,7 +883,14 @@ func genC11(c *Ctx) {
 						s.Edges = specs[u].Edges
 					}
 					_, fj := w.render(u, s)
-					ops = append(ops, map[string]any{"k": kind, "p": u, "file": fj})
+					o := map[string]any{"k": kind, "p": u, "file": fj}
+					if kind == "edit" && exists[u] && r.IntN(2) == 0 {
+						// same modification time as before (and, with the includes kept and a
+						// version number of the same width, the same size): only the content differs
+						o["keep"] = true
+						c.Count("op.edit.keep-mtime")
+					}
+					ops = append(ops, o)
 					exists[u] = true
 					c.Count("op." + kind)
 				}
